@@ -87,7 +87,13 @@ pub fn blocked_recv<F: Fl, const KIND: u8>(cap: u64, idle_limit: u32) {
 pub fn blocked_recv_lap<F: Fl, const KIND: u8>(cap: u64, idle_limit: u32, lap: u8) {
     ledger::reset();
     payload::reset();
-    sched::configure(1, 3, sched::MEM_KINDS, 2);
+    // one operation per site; the budget is the number of operations the others have
+    let others: u8 = match KIND {
+        2 | 6 => 2,
+        4 => 3,
+        _ => 1,
+    };
+    sched::configure(1, others, sched::MEM_KINDS, 1);
     sched::st().idle_limit = if idle_limit == 0 { 24 } else { idle_limit };
     let mut w = World::<F>::new(cap);
     set_world::<F>(&mut w);
